@@ -629,6 +629,8 @@ class ExprMixin:
             if isinstance(c, SetCell):
                 return VBuiltin('set.' + attr, base)
         if isinstance(base, VStr):
+            if not hasattr(str, attr):
+                self.raise_('AttributeError', node)
             return VBuiltin('str.' + attr, base)
         if isinstance(base, VModule):
             if base.info is not None:
